@@ -432,12 +432,6 @@ def _install_crypto(mods, saved):
 
         from_private_bytes = staticmethod(real_x.X25519PrivateKey.from_private_bytes)
 
-    _orders = {
-        "secp256r1": 0xFFFFFFFF00000000FFFFFFFFFFFFFFFFBCE6FAADA7179E84F3B9CAC2FC632551,
-        "secp384r1": 0xFFFFFFFFFFFFFFFFFFFFFFFFFFFFFFFFFFFFFFFFFFFFFFFFC7634D81F4372DDF581A0DB248B0A77AECEC196ACCC52973,
-        "secp521r1": 0x01FFFFFFFFFFFFFFFFFFFFFFFFFFFFFFFFFFFFFFFFFFFFFFFFFFFFFFFFFFFFFFFFFFFFFFFFFFFFFFFFFFFFFFFFFFFFFFFFFFFFFA51868783BF2F966B7FCC0148F709A5D03BB5C9B8899C47AEBB6FB71E91386409,
-    }
-
     class EcProxy(types.ModuleType):
         def __getattr__(self, name):
             return getattr(real_ec, name)
@@ -445,10 +439,10 @@ def _install_crypto(mods, saved):
     ecp = EcProxy("simec")
 
     def generate_private_key(curve, backend=None):
-        order = _orders[curve.name]
-        nbytes = (order.bit_length() + 7) // 8 + 8
-        v = int.from_bytes(sim_urandom(nbytes), "big") % (order - 1) + 1
-        return real_ec.derive_private_key(v, curve)
+        # 1 <= v < 2^(bits-1) < group order for the three NIST curves
+        bits = curve.key_size - 1
+        v = int.from_bytes(sim_urandom((bits + 7) // 8 + 1), "big") & ((1 << bits) - 1)
+        return real_ec.derive_private_key(v | 1, curve)
 
     def ECDSA(algorithm, deterministic_signing=True):
         return real_ec.ECDSA(algorithm, deterministic_signing=True)
